@@ -569,3 +569,49 @@ if __name__ == "__main__":
     for x in f[:20]:
         print("  ", x)
     sys.exit(1 if f else 0)
+
+
+# --------------------------------------------------------------------------
+# reference points (used by the recurrence and truncated-addition oracles)
+
+def pt_of(p):
+    """reference view of a library TimePoint: representation, date tuple,
+    second of day (Fraction), offset minutes"""
+    rep, date = tp_date(p)
+    return {"rep": rep, "date": tuple(date), "sod": tp_sod(p),
+            "off": tp_offset_minutes(p)}
+
+
+def pt_instant(mode, pt):
+    return (date_to_rd(mode, pt["rep"], pt["date"]) * SECONDS_IN_DAY
+            + pt["sod"] - pt["off"] * 60)
+
+
+def dur_tuple(d, sign=1):
+    y, m = dur_nominal(d)
+    return (sign * y, sign * m, sign * dur_len(d))
+
+
+def pt_add(mode, pt, dt):
+    """pt + (years, months, exact seconds): exact part first, then months
+    (single clamped steps, via the calendar date), then years (clamp per
+    representation)"""
+    years, months, secs = dt
+    rep = pt["rep"]
+    local = date_to_rd(mode, rep, pt["date"]) * SECONDS_IN_DAY + pt["sod"] \
+        + secs
+    rd = int(local // SECONDS_IN_DAY)
+    sod = local - rd * SECONDS_IN_DAY
+    date = rd_to_date(mode, rep, rd)
+    if months:
+        date = add_months_date(mode, rep, date, months)
+    if years:
+        date = add_years_date(mode, rep, date, years)
+    return {"rep": rep, "date": tuple(date), "sod": sod, "off": pt["off"]}
+
+
+def pt_same_fields(pt, p):
+    """library point p has exactly the fields of reference point pt"""
+    rep, date = tp_date(p)
+    return (rep == pt["rep"] and tuple(date) == pt["date"] and
+            tp_sod(p) == pt["sod"] and tp_offset_minutes(p) == pt["off"])
